@@ -458,6 +458,30 @@ def part_d(tier):
                 GET_TYPE, spec]
             cases.append({'part': 'D', 'decls': d, 'comments': ENV_COMMENTS + [blk(nm, ident='(virtual %s)' % slot)],
                           'dump': dump_xml(), 'note': '%s: (virtual %s)' % (nm, slot), 'misuse': misuse})
+    # accessor methods carrying an explicit (set-property Q) / (get-property Q), Q = the property their name
+    # implies / another existing property / a property that does not exist / no annotation, with and without
+    # the other property having accessors of its own
+    for qs in (None, 'label', 'title', 'nosuch'):
+        for qg in (None, 'label', 'title', 'nosuch'):
+            for own in ('none', 'both', 'setter'):
+                for flags in (3, 1):
+                    d = CLASS_DECLS_HEAD + ENV + [
+                        st('_FooThingClass', [['f', 'parent_class', 'GObjectClass']]), GET_TYPE,
+                        fn('foo_thing_set_label', 'void', [('FooThing*', 'self'), ('const char*', 'v')]),
+                        fn('foo_thing_get_label', 'const char*', [('FooThing*', 'self')])]
+                    if own in ('both', 'setter'):
+                        d.append(fn('foo_thing_set_title', 'void', [('FooThing*', 'self'), ('const char*', 'v')]))
+                    if own == 'both':
+                        d.append(fn('foo_thing_get_title', 'const char*', [('FooThing*', 'self')]))
+                    com = list(ENV_COMMENTS)
+                    if qs:
+                        com.append(blk('foo_thing_set_label', ident='(set-property %s)' % qs))
+                    if qg:
+                        com.append(blk('foo_thing_get_label', ident='(get-property %s)' % qg))
+                    cases.append({'part': 'D', 'decls': d, 'comments': com, 'annotated_accessors': True,
+                                  'dump': dump_xml(props=[('label', 'gchararray', flags), ('title', 'gchararray', 3)]),
+                                  'note': 'set_label (set-property %s), get_label (get-property %s), title accessors %s, '
+                                          'label flags %d' % (qs, qg, own, flags)})
     # properties with accessors and exotic types; vfuncs with invokers
     ptypes = ['gint', 'gchararray', 'gboolean', 'FooNoSuch', 'GStrv', 'GHashTable', 'GPtrArray', 'FooThing', 'gpointer',
               'GObject', 'glong', 'gint64', 'GVariant', 'GArray']
@@ -554,7 +578,10 @@ def run_case(case):
             return 'rejected', r.error, None, None
         return 'crash', r.error, None, None
     root = girread.parse(r.xml)
-    f = inv.check_root(root, [DEPS], strict_accessors=True)
+    # explicit (set-property)/(get-property) annotations may name anything: for those descriptions only the
+    # forward direction (property accessor -> method's annotation) and uniqueness are MUST
+    ann = bool(case.get('annotated_accessors'))
+    f = inv.check_root(root, [DEPS], strict_accessors=not ann, unique_accessors=True)
     return 'ok', f, r.xml, root
 
 
@@ -609,6 +636,8 @@ def _work(chunk):
                 part.add(unspecified=1)
                 continue
             key = 'gen:%s:%s' % (case['part'], classify(fd, root))
+            if fd[0] == 'accessor-unique':
+                key = 'gen:%s:accessor-unique:%s' % (case['part'], 'explicit' if case.get('annotated_accessors') else 'inferred')
             if fd[0] == 'shadow-pair' and case.get('shape'):
                 key = 'gen:%s:shadow-pair:%s' % (case['part'], case['shape'])
             _keep(best, key, '%s at %s: %s [%s]' % (fd[0], fd[1], fd[2], case['note']), case)
@@ -669,7 +698,7 @@ def run(ctx):
         cases += cs
     ctx.set(rule='structural invariants of vt/scan/c05_invariants (rules: type-unresolved, type-unknown, type-not-a-type, '
                  'type-target-dead, type-forbidden, transfer-missing, scope-missing, element-type-missing, index-range, '
-                 'shadow-pair, type-struct-pair, accessor-pair (strict), invoker) on the GIR emitted for every generated '
+                 'shadow-pair, type-struct-pair, accessor-pair (strict), accessor-unique, invoker) on the GIR emitted for every generated '
                  'API description of parts A-D (see module docstring) and on every *.gir under gir/ and tests/scanner/; '
                  'non-trivial = description for which the output has both live and demoted elements and at least one MUST '
                  'rule was evaluated',
